@@ -112,6 +112,21 @@ func specC03(tier string) *SeqSpec {
 			s.InitSweep = append(s.InitSweep, Op{Args: []string{"DEL", "k1", "k2"}, Then: []Op{c("RPUSH", "k1", "one", "", "three", "b"), c("LPUSH", "k2", "", "b", "cc"), a, c("LRANGE", "k1", "0", "-1"), c("LRANGE", "k2", "0", "-1")}})
 		}
 	}
+	// long lists (200 and 1000 elements; every earlier state has at most 8): searches that miss, writes in the
+	// middle, searches for what was just written, from both ends
+	for _, n := range []int{200, 1000} {
+		push := []string{"RPUSH", "k1"}
+		for i := 0; i < n; i++ {
+			push = append(push, "e"+itoa(i))
+		}
+		mid, far := itoa(n/2), itoa(n-3)
+		h := []Op{{Args: push}, c("LREM", "k1", "0", "nosuch"), c("LPOS", "k1", "nosuch"), c("LINSERT", "k1", "BEFORE", "nosuch", "x"), c("LSET", "k1", "10", "fresh"), c("LPOS", "k1", "fresh"), c("LPOS", "k1", "e10"),
+			c("LINSERT", "k1", "BEFORE", "fresh", "ins1"), c("LINSERT", "k1", "AFTER", "e"+far, "ins2"), c("LREM", "k1", "1", "fresh"), c("LREM", "k1", "-1", "e"+mid), c("LINDEX", "k1", mid), c("LINDEX", "k1", "-"+mid),
+			c("LRANGE", "k1", mid, itoa(n/2+5)), c("LSET", "k1", "-2", "tail"), c("LPOS", "k1", "tail", "RANK", "-1"), c("LPOS", "k1", "e5", "MAXLEN", "3"), c("LPOS", "k1", "e"+far, "RANK", "-1", "MAXLEN", "10"),
+			c("LMOVE", "k1", "k1", "RIGHT", "LEFT"), c("LPOS", "k1", "tail"), c("RPOP", "k1", "3"), c("LPOP", "k1", "2"), c("LSET", "k1", mid, "fresh2"), c("LREM", "k1", "0", "fresh2"), c("LPUSH", "k1", "fresh3"), c("LPOS", "k1", "fresh3"),
+			c("LTRIM", "k1", "5", "-6"), c("LLEN", "k1"), c("LPOS", "k1", "ins1"), c("LREM", "k1", "0", "ins2"), c("LTRIM", "k1", "0", "130"), c("LSET", "k1", "100", "w"), c("LPOS", "k1", "w"), c("LTRIM", "k1", "0", "120"), c("LSET", "k1", "60", "w2"), c("LPOS", "k1", "w2"), c("LREM", "k1", "0", "w2")}
+		s.Long = append(s.Long, h)
+	}
 	s.Depth = 3
 	if tier == "thorough" {
 		s.Depth = 4
